@@ -80,7 +80,8 @@ theorem write_places_span (file : Bytes) (free : List Sp) (segs : List Seg) (seq
       (∀ x ∈ A ++ (.act seq rid st pad :: F) ++ B, x.OK) ∧
       (segsSize (.act seq rid st pad :: F) = segsSize R ∨ B = []) ∧
       (imgs = [("writeAt", render (A ++ (.act seq rid st pad :: F) ++ B))] ∨
-       ∃ z, imgs = [("grow", file ++ zeros z), ("writeAt", render (A ++ (.act seq rid st pad :: F) ++ B))]) :=
+       ∃ z, GrowOK file.length z ∧
+        imgs = [("grow", file ++ zeros z), ("writeAt", render (A ++ (.act seq rid st pad :: F) ++ B))]) :=
   place_spec file free segs seq rid st h hnew hbig
 
 example : Good [⟨0, 15⟩, ⟨106, 4005⟩] := by
